@@ -347,7 +347,10 @@ class _RawConfigParser(configparser.RawConfigParser):
     self._sections = collections.OrderedDict()
 
   def optionxform(self, option):
-    option = option.strip()
+    # Remove all whitespace (as _ConfigParserDict does for its keys) so that the duplicate
+    # checks made whilst reading a file see 'A-B' and 'A - B' as the same option.
+    option = option.strip().replace(' ', '')
+    option = option.replace('\t', '')
     return option
 
 class ConfigParser(object):
